@@ -547,6 +547,41 @@ Proof.
   - (* clone_mut *) exists (vpush v x). unfold vpush. rewrite app_length. cbn [length]. split; [reflexivity|lia].
 Qed.
 
+(* the sorter used to RUN the model meets the contract whenever the order is total *)
+Lemma insert_by_perm (le : T -> T -> bool) x l : Permutation (insert_by le x l) (x :: l).
+Proof.
+  induction l as [|h t IH]; cbn [insert_by]; auto.
+  destruct (le x h); auto. apply perm_trans with (h :: x :: t); [now apply perm_skip|apply perm_swap].
+Qed.
+
+Lemma isort_perm (le : T -> T -> bool) l : Permutation (isort le l) l.
+Proof.
+  induction l as [|h t IH]; cbn; auto. unfold isort in *. cbn [fold_right].
+  apply perm_trans with (h :: fold_right (insert_by le) [] t); [apply insert_by_perm|now apply perm_skip].
+Qed.
+
+Lemma insert_by_sorted (le : T -> T -> bool) (Htot : forall x y, le x y = true \/ le y x = true) x l :
+  Sorted (fun a b => le a b = true) l -> Sorted (fun a b => le a b = true) (insert_by le x l).
+Proof.
+  induction l as [|h t IH]; intros Hs; cbn [insert_by].
+  - repeat constructor.
+  - destruct (le x h) eqn:E.
+    + constructor; auto.
+    + inversion Hs as [|? ? Hst Hh]; subst. constructor; [now apply IH|].
+      assert (Hhx : le h x = true) by (destruct (Htot x h) as [H|H]; [congruence|exact H]).
+      destruct t as [|h2 t2]; cbn [insert_by].
+      * constructor. exact Hhx.
+      * destruct (le x h2); constructor; auto. inversion Hh; auto.
+Qed.
+
+Lemma isort_sorter_ok (Htot : forall x y : T, leb x y = true \/ leb y x = true) :
+  forall l, Permutation (isort leb l) l /\ Sorted le_rel (isort leb l).
+Proof.
+  intros l. split; [apply isort_perm|]. unfold le_rel.
+  induction l as [|h t IH]; cbn; [constructor|]. unfold isort in *. cbn [fold_right].
+  now apply insert_by_sorted.
+Qed.
+
 (* every step of every history satisfies its specification; the state is threaded as in [vrun_state]
    (a panicking operation leaves the vector as it was) *)
 Fixpoint run_spec (v : list T) (ops : list (vop A)) : Prop :=
@@ -568,3 +603,4 @@ Lemma vrun_state_cons (v : list T) o t :
 Proof. unfold vrun_state. cbn [fold_left]. destruct (vstep sorter v o) as [[v' r]|k]; reflexivity. Qed.
 
 End Refine.
+
